@@ -251,6 +251,13 @@ def stripAt (ts : Toks) (i : Nat) : Toks :=
   | .op _ _ _ :: rest => mergeTxt (ts.take i ++ ((takeInner rest 1).1 ++ (takeInner rest 1).2))
   | _ => ts
 
+/-- `strip_tags(strip=(tag₁, tag₂, …))`: `remove_all_reference_marks` strips the point mark, the start and the end tags at once -/
+def stripKinds (ks : List Nat) (ts : Toks) : Toks := ks.foldl (fun t k => stripKind k t) ts
+
+/-- `strip_elements([e₁, e₂, …])` (`remove_reference_mark`: the start and the end tag of one range), the elements given by the
+    indices of their start tags in DESCENDING order: taking the last one first leaves the earlier indices in place -/
+def stripAts (is : List Nat) (ts : Toks) : Toks := is.foldl stripAt ts
+
 /-! ### moving the end tag of a range: `set_reference_mark_end`, `insert_annotation_end` (after fix C09-F6)
 
 The new end tag is inserted first — if the place is not found the call raises and nothing has changed —, only then is the
